@@ -44,6 +44,11 @@ def check(run, project):
     primitive_event_once(run, roles, "V1")
     v3(run, project, roles)
     v4(run, project)
+    # V7 (= C15-F1): strict mode is the decoder's default through every front-end (a front-end that spells the mode flag out
+    # uses the decoder's default and hands the flag on)
+    from ..report import RuleView
+    from . import c15
+    c15.f1_f2(RuleView(run, "F1", "V7"), project)
     c20.t6(run, project, L, facets={"valid", "naming"}, rule="V5")
     v6(run, project, roles, L)
     run.floor("V5", 700, "pinned types")
